@@ -394,6 +394,12 @@ func buildFiles(gc graphCase) map[string]string {
 		switch gc.Faults[gc.Names[i]] {
 		case "trunc":
 			t = t[:strings.Index(t, "    ...")] + "    !ty"
+		case "trunchdr":
+			t += "Tail [~d" // cut inside the header of the file's last application: the error is located at end of file
+		case "truncname":
+			t += "Tail"
+		case "trunccolon":
+			t += "Tail [~db]:\n"
 		case "badimport":
 			t = "import zz !!\n" + t
 		case "badbody":
